@@ -60,14 +60,15 @@ MAX_FAILURES = 120
 
 
 # ------------------------------------------------------------------ universe
-def universe(thorough: bool):
-    comps = ["a", "A", "b"] + (["ab", "B"] if thorough else [])
+def universe(extended: bool):
+    """The base universe (enumerated) or the extended one (thorough tier, sampled)."""
+    comps = ["a", "A", "b"] + (["ab", "B"] if extended else [])
     paths = comps + [x + "/" + y for x in comps for y in comps]
     gpats = ["*", "a", "A", "b", "a*", "*/a", "a/*", "**", "?", "*/*"]
-    if thorough:
+    if extended:
         gpats += ["B", "*b", "[ab]", "a/b"]
     regexes = ["a", "A", ".*b$", "a/.*", "^$", "(?!a)", "a*", ".*/A$"]
-    if thorough:
+    if extended:
         regexes += ["[ab]$", "b|.*/b"]
     return comps, paths, gpats, regexes
 
@@ -319,6 +320,7 @@ def run_handlers(ctx, res: Result, orc: Oracles, kind: str, specs, configs, labe
     mismatch_cfgs = []
     nspecs = len(specs)
     moveflag = [s[0] in MOVE for s in specs]
+    shape = [(s[1], s[2], s[0] in DIRS) for s in specs]
     for off in range(0, len(configs), chunk):
         part = configs[off:off + chunk]
         outs = core.run_model("handlers", head + [cfg_wire("fixed", c) for c in part])[2:]
@@ -329,6 +331,7 @@ def run_handlers(ctx, res: Result, orc: Oracles, kind: str, specs, configs, labe
             else:
                 h = RecR(regexes=cfg[0], ignore_regexes=cfg[1], ignore_directories=cfg[2], case_sensitive=cfg[3])
                 nondefault = cfg[0] is not None or cfg[1] is not None
+            cfgkey = repr(cfg)
             if not isinstance(mout, list) or len(mout) != nspecs:
                 res.mismatches.append(Mismatch(pair=hname + ".dispatch", case=cfg_json(kind, cfg), model=str(mout)[:300],
                                                impl="(model gave no per-event answer)"))
@@ -353,8 +356,8 @@ def run_handlers(ctx, res: Result, orc: Oracles, kind: str, specs, configs, labe
                         signature={"handler": hname, "law": verdict[0], "cause": cause(orc, cfg, spec),
                                    "move_event": spec[0] in MOVE},
                         observed=got, expected=verdict[1]))
-                if nondefault and got != "done:" or moveflag[ei] and nondefault:
-                    res.nontrivial.add(hash((kind, label, off + ci, ei)))
+                if nondefault and (got != "done:" or moveflag[ei]):
+                    res.nontrivial.add(hash((kind, cfgkey, shape[ei])))
             res.evaluations += nspecs
             res.traces_validated += nspecs
             if bad_here:
@@ -364,7 +367,7 @@ def run_handlers(ctx, res: Result, orc: Oracles, kind: str, specs, configs, labe
             res.hist(kind + "_flags", f"ignore_directories={cfg[2]}/case_sensitive={cfg[3]}")
     res.hist("events_per_config", f"{label}:{kind}:{nspecs}")
     # diagnostic: are the disagreements exactly the pinned behaviour (dest_path always appended)?
-    if mismatch_cfgs:
+    if mismatch_cfgs and (label != "single" or not any(n.startswith("single/") for n in res.notes)):
         probe = mismatch_cfgs[:60]
         pouts = core.run_model("handlers", head + [cfg_wire("pinned", c) for c in probe])[2:]
         explained = 0
@@ -423,7 +426,7 @@ def is_subseq(l, m):
     return all(any(x == y for y in it) for x in l)
 
 
-def run_filters(ctx, res: Result, orc: Oracles, gpats, n_lists: int):
+def run_filters(ctx, res: Result, orc: Oracles, gpats, n_lists: int, n_combos):
     """_match_path, filter_paths, match_any_paths directly: sub-sequence law, agreement with pathlib, conflicts."""
     from watchdog.utils import patterns as P
     rng = ctx.rng("filters")
@@ -443,14 +446,15 @@ def run_filters(ctx, res: Result, orc: Oracles, gpats, n_lists: int):
             return type(ex).__name__
 
     combos = [(i, x, cs) for i in cfgs for x in cfgs for cs in (True, False)]
-    if not ctx.thorough:
-        combos = rng.sample(combos, min(len(combos), 900))
+    full = n_combos is None
+    if not full:
+        combos = rng.sample(combos, min(len(combos), n_combos))
     for (incl, excl, cs) in combos:
         i = ["*"] if incl is None else incl
         x = [] if excl is None else excl
         confl = orc.conflict(cs, i, x)
         kw = dict(included_patterns=incl, excluded_patterns=excl, case_sensitive=cs)
-        plists = path_lists if ctx.thorough else rng.sample(path_lists, min(len(path_lists), 8))
+        plists = path_lists if full else rng.sample(path_lists, min(len(path_lists), 8))
         for pl in plists:
             meta = {"fn": "filter_paths", "paths": pl, **kw}
             got = call(lambda: list(P.filter_paths(list(pl), **kw)))
@@ -492,7 +496,7 @@ def run_filters(ctx, res: Result, orc: Oracles, gpats, n_lists: int):
                         signature={"fn": "match_any_paths", "law": "agrees with pathlib",
                                    "cause": "a matching empty path is not counted" if "" in want and not any(want) else "other"},
                         observed=got2, expected=bool(want)))
-        for p in (allp if ctx.thorough else rng.sample(allp, 4)):
+        for p in (allp if full else rng.sample(allp, 4)):
             meta3 = {"fn": "_match_path", "path": p, "included": i, "excluded": x, "case_sensitive": cs}
             got3 = call(lambda: P._match_path(p, set(i), set(x), case_sensitive=cs))
             cases.append(sx([Atom("matchpath"), p, i, x, cs]))
@@ -540,6 +544,19 @@ def validate_oracle_facts(res: Result, orc: Oracles, paths):
             res.mismatches.append(Mismatch(pair="os.fsdecode", case=p, model=p, impl=os.fsdecode(os.fsencode(p))))
     if os.fsdecode(b"") != "" or os.fsdecode("") != "":
         res.mismatches.append(Mismatch(pair="os.fsdecode", case="", model="", impl=os.fsdecode(b"")))
+    # "case folded when case-insensitive", read independently of PureWindowsPath: fold path and pattern, match as posix
+    from pathlib import PurePosixPath
+    for (p, q), (a, b) in orc.glob.items():
+        if not p:
+            continue
+        res.evaluations += 1
+        folded = PurePosixPath(p.lower()).match(q.lower())
+        if orc.glob[(p, orc.low[q])][1] != folded:
+            add_failure(res, Failure(
+                what="_match_path: case-insensitive matching (PureWindowsPath, lower-cased pattern) differs from matching the "
+                     "case-folded path against the case-folded pattern",
+                case={"fn": "_match_path", "path": p, "included": [q], "excluded": [], "case_sensitive": False},
+                signature={"fn": "_match_path", "law": "case folding"}, observed=orc.glob[(p, orc.low[q])][1], expected=folded))
     empties = sorted(q for (p, q), (a, b) in orc.glob.items() if p == "" and (a or b))
     res.notes.append(f"glob patterns of the universe that pathlib matches against the empty path: {empties}; "
                      f"regexes that match the empty string: {sorted(r for (cs, r, p), b in orc.re.items() if p == '' and b and cs)}")
@@ -592,18 +609,8 @@ def run_single(ctx, res: Result, case: dict):
 def run(ctx) -> Result:
     res = Result()
     thorough = ctx.thorough
-    comps, paths, gpats, regexes = universe(thorough)
+    comps, paths, gpats, regexes = universe(False)
     orc = Oracles(paths, gpats, regexes)
-    res.rule = (
-        f"events: the 13 classes of watchdog.events x paths with one or two components over {comps} "
-        f"(move classes: every ordered pair; plus empty-path edges), str and bytes; pattern handler configs: "
-        f"patterns/ignore_patterns in None, [], every list of <= 2 of {gpats} x ignore_directories x case_sensitive; regex "
-        f"handler configs likewise over {regexes} (plus a bare str for regexes); part A = all classes x str/bytes x a "
-        f"random sample of configs, part B = 4 representative classes (file/dir x move/non-move) x "
-        f"{'ALL configs' if thorough else 'a random sample of configs'}; filters: _match_path/filter_paths/match_any_paths on "
-        f"path lists of length <= 4 incl. the empty path. distinct = (part, config, event); non-trivial = a config with a "
-        f"non-default list and an event that is dispatched or is a move event; for the filters: a selection that keeps some "
-        f"but not all paths")
     rng = ctx.rng("configs")
     validate_oracle_facts(res, orc, paths)
     # corpus and adversarial cases first
@@ -616,14 +623,42 @@ def run(ctx) -> Result:
     pcfgs, rcfgs = pattern_configs(gpats), regex_configs(regexes)
     res.hist("universe", f"paths={len(paths)} gpats={len(gpats)} regexes={len(regexes)} pattern_configs={len(pcfgs)} "
                          f"regex_configs={len(rcfgs)} events_all={len(allspecs)} events_rep={len(repspecs)}")
-    nA, nB = (60, 420) if not thorough else (400, None)
+    nA, nB = (150, 1300) if not thorough else (600, None)
     for kind, cfgs in (("pattern", pcfgs), ("regex", rcfgs)):
         run_handlers(ctx, res, orc, kind, allspecs, rng.sample(cfgs, min(nA, len(cfgs))), "A")
         partB = cfgs if nB is None else rng.sample(cfgs, min(nB, len(cfgs)))
         run_handlers(ctx, res, orc, kind, repspecs, partB, "B")
         if nB is None:
-            res.notes.append(f"part B/{kind}: exhaustive over all {len(cfgs)} configurations x {len(repspecs)} events")
-    run_filters(ctx, res, orc, gpats, 40 if not thorough else 120)
+            res.notes.append(f"part B/{kind}: exhaustive over all {len(cfgs)} configurations x {len(repspecs)} events "
+                             f"of the base universe")
+    run_filters(ctx, res, orc, gpats, 40 if not thorough else 100, 900 if not thorough else None)
+    ext = ""
+    if thorough:
+        # the extended universe (longer components, upper-case pattern, character class, alternation): sampled
+        comps2, paths2, gpats2, regexes2 = universe(True)
+        orc2 = Oracles(paths2, gpats2, regexes2)
+        validate_oracle_facts(res, orc2, paths2)
+        all2, rep2 = events_all_classes(paths2), events_representative(paths2)
+        run_base(ctx, res, all2)
+        p2, r2 = pattern_configs(gpats2), regex_configs(regexes2)
+        for kind, cfgs in (("pattern", p2), ("regex", r2)):
+            run_handlers(ctx, res, orc2, kind, all2, rng.sample(cfgs, 80), "A-ext")
+            run_handlers(ctx, res, orc2, kind, rep2, rng.sample(cfgs, 500), "B-ext")
+        run_filters(ctx, res, orc2, gpats2, 100, 3000)
+        ext = (f"; thorough tier additionally samples an extended universe: components {comps2}, globs {gpats2}, regexes "
+               f"{regexes2} ({len(p2)} / {len(r2)} configs, {len(all2)} / {len(rep2)} events)")
+    res.rule = (
+        f"events: the 13 classes of watchdog.events x paths with one or two components over {comps} "
+        f"(move classes: every ordered pair; plus empty-path edges), str and bytes; pattern handler configs: "
+        f"patterns/ignore_patterns in None, [], every list of <= 2 of {gpats} x ignore_directories x case_sensitive "
+        f"({len(pcfgs)}); regex handler configs likewise over {regexes}, plus a bare str for regexes ({len(rcfgs)}); "
+        f"part A = all classes x str/bytes ({len(allspecs)} events) x a random sample of configs, part B = 4 representative "
+        f"classes (file/dir x move/non-move, {len(repspecs)} events) x "
+        f"{'ALL configs' if thorough else 'a random sample of configs'}; filters: _match_path/filter_paths/match_any_paths "
+        f"on path lists of length <= 4 incl. the empty path x {'ALL' if thorough else 'sampled'} include/exclude lists{ext}. "
+        f"distinct = (handler kind, config, src, dest, is_directory) - the class and str/bytes are not counted; non-trivial = "
+        f"a config with a non-default list and an event that is dispatched or is a move event; for the filters: a selection "
+        f"that keeps some but not all paths")
     res.samples = [
         {"handler": "pattern", **cfg_json("pattern", pcfgs[len(pcfgs) // 3]), **ev_json(repspecs[len(repspecs) // 2])},
         {"handler": "regex", **cfg_json("regex", rcfgs[len(rcfgs) // 2]), **ev_json(allspecs[len(allspecs) // 2])},
